@@ -351,6 +351,26 @@ def run(ctx):
                            "rounded to float32 (fit_preconditioning_transform casts to the transform's dtype); the populations it builds from the kernel's state keep only single precision",
                            disc=f"transform-dtype|{n_tc}")
     ctx.count("transform_constructions_in_front_end_and_samplers", n_tc)
+    # ---- buffers a sampler allocates in the run's namespace carry the run's dtype: xp.empty / zeros / ones / full without one give the namespace default,
+    #      and an indexed update (x[i] = y, x.at[i].set(y)) keeps the buffer's dtype, so a population collected in such a buffer is rounded on the way in
+    n_al = 0
+    bad_al = []
+    for f_ in repo.all_functions():
+        mod_ = f_.ident.split(":")[0]
+        if not mod_.startswith("aspire.samplers") or f_.cls is None:
+            continue
+        for n_ in walk_no_nested(f_.node):
+            if (isinstance(n_, ast.Call) and isinstance(n_.func, ast.Attribute) and n_.func.attr in ("empty", "zeros", "ones", "full")
+                    and isinstance(n_.func.value, ast.Attribute) and n_.func.value.attr == "xp"):
+                n_al += 1
+                if not any(k.arg == "dtype" or k.arg is None for k in n_.keywords):
+                    bad_al.append((f_, n_))
+    for f_, n_ in bad_al:
+        ctx.refute("C15.pop", f_.ident, loc_of(f_, n_), f"{ast.unparse(n_)[:60]} allocates a buffer in the namespace's default dtype: what is written into it (indexed update) is rounded to that "
+                   "dtype, so a population collected in it no longer has the precision the sampler was built for, whatever dtype the sample set is given afterwards", disc=f"alloc|{n_.func.attr}")
+    if not bad_al:
+        ctx.prove("C15.pop", "aspire.samplers", "src/aspire/samplers", f"no sampler allocates a run-namespace buffer without a dtype ({n_al} allocation sites)", disc="alloc")
+    ctx.count("run_namespace_buffers_in_samplers", n_al)
     # ---- samplers do not write in place into arrays they were handed: a proposal output converted without a copy can be a read-only view of a buffer
     #      of another library (NumPy view of a JAX array), which an in-place update cannot modify
     from ..report import reuse as _reuse
@@ -602,6 +622,7 @@ MUTANTS += [
     M("Samples.to_namespace hands over the source dtype", _S, "dtype = convert_dtype(self.dtype, xp)\n        return self.__class__(\n            x=asarray(self.x, xp, dtype=dtype),", "dtype = self.dtype\n        return self.__class__(\n            x=asarray(self.x, xp, dtype=dtype),", ("C15.dtype", "C15.asarray")),
     M("SMCSamples.to_namespace loses beta", _S, "samples = super().to_namespace(xp, dtype=dtype)\n        samples.beta = self.beta\n", "samples = super().to_namespace(xp, dtype=dtype)\n", "C15.carry"),
     M("zuko log_prob with autograd", "src/aspire/flows/torch/flows.py", "with torch.no_grad():\n            x_prime, log_abs_det_jacobian = self.rescale(x)\n            log_prob = self._flow().log_prob(x_prime) + log_abs_det_jacobian", "if True:\n            x_prime, log_abs_det_jacobian = self.rescale(x)\n            log_prob = self._flow().log_prob(x_prime) + log_abs_det_jacobian", "C15.grad"),
+    M("initial population collected in a default-dtype buffer", "src/aspire/samplers/mcmc.py", "n_samples_drawn = 0\n        samples = None\n", "n_samples_drawn = 0\n        samples = None\n        buf = self.xp.empty((n_samples, self.dims))\n", "C15.pop"),
     M("minipcn samples without dtype", "src/aspire/samplers/mcmc.py", "x, xp=self.xp, parameters=self.parameters, dtype=self.dtype", "x, xp=self.xp, parameters=self.parameters", "C15.pop", within="MiniPCN.sample"),
 ]
 _U = "src/aspire/utils.py"
@@ -612,6 +633,7 @@ MUTANTS += [
     M("to_numpy returns something else on the fallback path", _U, "except (ValueError, NotImplementedError):\n        return np.asarray(x, **kwargs)", "except (ValueError, NotImplementedError):\n        return np.zeros_like(x)", "C15.helpers"),
 ]
 NEUTRALS = [
+    M("initial population collected in a buffer of the sampler's dtype", "src/aspire/samplers/mcmc.py", "n_samples_drawn = 0\n        samples = None\n", "n_samples_drawn = 0\n        samples = None\n        buf = self.xp.empty((n_samples, self.dims), dtype=self.dtype)\n"),
     M("torch to JAX hand-over through DLPack of a contiguous copy", "src/aspire/utils.py", "if dtype is not None:\n        kwargs[\"dtype\"] = resolve_dtype(dtype, xp=xp)\n    return xp.asarray(x, **kwargs)",
       "if is_torch_array(x) and is_jax_namespace(xp) and not kwargs:\n        array = xp.from_dlpack(x.detach().contiguous())\n        if dtype is not None:\n            array = array.astype(resolve_dtype(dtype, xp=xp))\n        return array\n    if dtype is not None:\n        kwargs[\"dtype\"] = resolve_dtype(dtype, xp=xp)\n    return xp.asarray(x, **kwargs)"),
     M("log N taken with NumPy but converted to a Python float", _S, "asarray(logsumexp(self.log_w), self.xp) - math.log(\n            len(self.x)\n        )", "asarray(logsumexp(self.log_w), self.xp) - float(np.log(len(self.x)))"),
